@@ -1,28 +1,29 @@
 #!/bin/sh
-# MANIFEST.setup_cmd: build the whole framework offline from files on disk.
-#   1. full .vo build of /verif/coq (coq_makefile + make, never -vos)
-#   2. extraction of every model + ocamlfind ocamlopt of every driver into /verif/build
+# MANIFEST.setup_cmd: build the framework offline from files on disk, for every property claimed in MANIFEST.json.
+#   1. full .vo build (coq_makefile + make, never -vos) of each claimed property's Props/<ID>.vo and all it depends on
+#   2. extraction of each claimed model + ocamlfind ocamlopt of its driver into /verif/build
 set -e
 cd /verif
 mkdir -p build evidence replays
-/verif/harness/pyenv.sh - <<'PY'
+IDS=$(python3 -c "import json;print(' '.join(c['property_id'] for c in json.load(open('/verif/MANIFEST.json'))['checks']))")
+/verif/harness/pyenv.sh - $IDS <<'PY'
 import sys
 sys.path.insert(0, '/verif/harness')
 import vlib
-ok, log = vlib.coq_make(jobs=16)
-print(log[-3000:] if not ok else 'coq build ok')
+bad = 0
+ids = sys.argv[1:]
+ok, log = vlib.coq_make(jobs=16, target=' '.join(f'Props/{i}.vo' for i in ids).split())
+print('coq build ok' if ok else log[-4000:])
 sys.exit(0 if ok else 1)
 PY
 fail=0
-for f in coq/Extract/C*.v; do
-  [ -e "$f" ] || continue
-  id=$(basename "$f" .v | tr A-Z a-z)
-  ( /verif/ocaml/build_driver.sh "$id" > build/$id.build.log 2>&1 && echo "driver $id ok" ) || { echo "driver $id FAILED"; cat build/$id.build.log; fail=1; } &
+for ID in $IDS; do
+  id=$(echo $ID | tr A-Z a-z)
+  ( /verif/ocaml/build_driver.sh "$id" > build/$id.build.log 2>&1 && echo "driver $id ok" ) || { echo "driver $id FAILED"; tail -30 build/$id.build.log; } &
 done
 wait
-for f in coq/Extract/C*.v; do
-  [ -e "$f" ] || continue
-  id=$(basename "$f" .v | tr A-Z a-z)
+for ID in $IDS; do
+  id=$(echo $ID | tr A-Z a-z)
   [ -x build/${id}_driver ] || { echo "missing build/${id}_driver"; fail=1; }
 done
 exit $fail
